@@ -56,7 +56,7 @@ impl Prop for C11 {
         ]
     }
     fn cases(&self, tier: Tier) -> u32 {
-        tier.pick(120, 2500)
+        tier.pick(240, 2500)
     }
     fn min_nontrivial(&self, tier: Tier) -> usize {
         tier.pick(100, 400)
